@@ -900,6 +900,18 @@ func (s *c07State) parseString(enc string, k c07Case) {
 		s.panicVerdict(k.entry, enc, k.input, val, site, stack)
 		return
 	}
+	// interpreting a string is a function of the string: the same string
+	// again, in the same process, gets the same verdict.
+	var err2 error
+	p, val, site, stack = fw.Guard(func() { err2 = s.call(k.entry, in) })
+	if p {
+		s.panicVerdict(k.entry, enc+" (second interpretation of the same string)", k.input, val, site, stack)
+		return
+	}
+	if (err == nil) != (err2 == nil) {
+		c.Violate("verdict-changes-on-second-interpretation:"+k.entry, enc, fmt.Sprintf("first: %v", err), fmt.Sprintf("second: %v", err2))
+		return
+	}
 	if err != nil {
 		c.Bucket("entry|" + k.entry + "|rejected")
 	} else {
@@ -2099,6 +2111,8 @@ func (s *c07State) indents() {
 // and then stopping without a word drops the truncated one silently.
 func (s *c07State) tails() {
 	c := s.c
+	s.boundaryTails()
+	s.blankLines()
 	var names []string
 	for n := range s.corpus {
 		names = append(names, n)
@@ -2165,6 +2179,87 @@ func (s *c07State) tails() {
 					if err == nil && n <= whole {
 						c.Violate("truncated-last-record-dropped", enc, "an error (or the record, if the cut left it whole)", fmt.Sprintf("%d records read, no error", n))
 					}
+				}
+			}
+		}
+	}
+}
+
+// boundaryTails: the reader takes its input in blocks of 4096 bytes. Intact
+// records, white space up to (just short of, just beyond) a block boundary,
+// then a fragment of the next record: a truncated stream whatever the
+// alignment.
+func (s *c07State) boundaryTails() {
+	c := s.c
+	mk := func(pad int) string {
+		return "LOCUS       BND                       12 bp    DNA     linear   SYN 01-JAN-2020\nDEFINITION  block boundary.\nCOMMENT     " + strings.Repeat("x", pad) + "\nORIGIN      \n        1 acgtacgtac gt\n//\n"
+	}
+	base := len(mk(0))
+	for _, nrec := range []int{1, 2} {
+		for _, block := range []int{4096, 8192} {
+			for end := block - 8; end <= block+4; end++ {
+				for _, tail := range []string{"L", "LOC", "\nLO", "\nLOC", "\r\nLO", " \nL", "\n\n\nL", "\n>", "\nLOCUS       X"} {
+					if !c.NextShared() {
+						continue
+					}
+					pad := end - base*nrec
+					if pad < 0 {
+						continue
+					}
+					in := mk(pad) + strings.Repeat(mk(0), nrec-1) + tail
+					enc := fmt.Sprintf("truncated last record at a block boundary: %d intact record(s) ending at offset %d, then %q", nrec, end, tail)
+					c.Begin(enc)
+					c.Count(enc, true)
+					c.Bucket("truncated-last-record|block-boundary")
+					p, val, site, n, _, err := c07ScanOnce(in)
+					if p {
+						c.ViolateX("truncated-last-record:"+panicClass(site, val), enc, "an error", fmt.Sprint(val), "", nil)
+						continue
+					}
+					if err == nil && n <= nrec {
+						c.Violate("truncated-last-record-dropped", enc, "an error", fmt.Sprintf("%d records read, no error", n))
+					}
+				}
+			}
+		}
+	}
+}
+
+// blankLines: a line of nothing but white space (blanks, tabs, form feeds,
+// vertical tabs, stray carriage returns) in front of every line of a record
+// is never a reason to panic.
+func (s *c07State) blankLines() {
+	c := s.c
+	var names []string
+	for n := range s.corpus {
+		names = append(names, n)
+	}
+	sort.Strings(names)
+	var rec string
+	for _, n := range names {
+		if t := string(s.corpus[n]); strings.HasPrefix(t, "LOCUS") && len(t) < 9000 {
+			rec = strings.ReplaceAll(t, "\r\n", "\n")
+			break
+		}
+	}
+	if rec == "" {
+		return
+	}
+	lines := strings.SplitAfter(rec, "\n")
+	for _, ws := range []string{" ", "   ", "\t", " \t", "  \f", " \v", "  \r\r", "\t \t", "            ", "                     ", " \t\f\v ", "\f", "\r", "  \r"} {
+		for _, eol := range []string{"\n", "\r\n"} {
+			for i := range lines {
+				if !c.NextShared() {
+					continue
+				}
+				in := strings.Join(lines[:i], "") + ws + "\n" + strings.Join(lines[i:], "")
+				in = strings.ReplaceAll(in, "\n", eol)
+				enc := fmt.Sprintf("white-space-only line %q in front of line %d, eol %q", ws, i+1, eol)
+				c.Begin(enc)
+				c.Count(enc, true)
+				c.Bucket("white-space-only-line")
+				if p, val, site, _, _, _ := c07ScanOnce(in + in); p {
+					c.ViolateX("white-space-line:"+panicClass(site, val), enc, "values or an error", fmt.Sprint(val), "", nil)
 				}
 			}
 		}
